@@ -62,6 +62,25 @@ def evaluate(ctx, cases, stream):
                         bad.append({'query': q, 'form': form, 'impl': 'returned an obsolete or foreign term object'})
                     if len(bad) >= 3:
                         break
+                # a pickled / deep-copied ontology is the same ontology
+                if not bad and len(c['terms']) and (len(c['terms']) + len(c['queries'])) % 5 == 0:
+                    import copy
+                    import pickle
+                    for how, clone in (('pickle round trip', lambda x: pickle.loads(pickle.dumps(x))), ('deepcopy', copy.deepcopy)):
+                        o2 = clone(onto)
+                        v2 = {'len': len(o2), 'terms': sorted(t.identifier.value for t in o2.terms), 'term_ids': sorted(t.value for t in o2.term_ids)}
+                        if v2 != model:
+                            bad.append({'what': f'{how}: len/terms/term_ids', 'impl': v2, 'model': model})
+                            break
+                        for (q, form), ma in zip(c['queries'], rep['answers']):
+                            arg = gl.mk_arg(form, q)
+                            t = o2.get_term(arg)
+                            ia = {'id': None if t is None else t.identifier.value, 'name': o2.get_term_name(arg), 'contains': arg in o2}
+                            if ia != ma:
+                                bad.append({'what': how, 'query': q, 'form': form, 'impl': ia, 'model': ma})
+                                break
+                        if bad:
+                            break
                 # the collection views must be what they were, after all those lookups (hits and misses)
                 impl2 = {'len': len(onto), 'terms': sorted(t.identifier.value for t in onto.terms),
                          'term_ids': sorted(t.value for t in onto.term_ids)}
